@@ -79,8 +79,8 @@ def models(tier):
     """name -> (umat, statevars array factory or None, class flags)"""
     M = {}
 
-    def add(name, um, sv=None, hyper=True, iso=True, energy=False, key=None, tolscale=1):
-        M[name] = dict(um=um, sv=sv, hyper=hyper, iso=iso, energy=energy, key=key, tolscale=tolscale)
+    def add(name, um, sv=None, hyper=True, iso=True, energy=False, key=None, tolscale=1, deriv=True):
+        M[name] = dict(um=um, sv=sv, hyper=hyper, iso=iso, energy=energy, key=key, tolscale=tolscale, deriv=deriv)
 
     add("NeoHooke", fem.NeoHooke(mu=1.25, bulk=4.0), energy=True, key=("NeoHooke", dict(mu=1.25, bulk=4.0)))
     # (parameters are never 1: a factor applied twice or not at all must be visible) ; every optional part switched off once
@@ -126,9 +126,11 @@ def models(tier):
     add("jax.morph", fj.Material(jl.morph, p=MP, nstatevars=13), sv=lambda n: np.zeros((13, n, 1)), hyper=False, iso=False)
     if True:
         add("tt.morph_representative_directions", fem.MaterialAD(tl.morph_representative_directions, p=MP, nstatevars=84),
-            sv=lambda n: np.zeros((84, n, 1)), hyper=False, iso=False)
+            sv=lambda n: np.zeros((84, n, 1)), hyper=False, iso=False, deriv=False)
+        # (sums of 84 one-dimensional models with max / abs switches regularised by 1e-6: the branch pattern changes inside the
+        #  h = 2^-6 stencil, so the stencil law is not issued for them -- their tangent is AD of the stress, the twins are compared in C12)
         add("jax.morph_representative_directions", fj.Material(jl.morph_representative_directions, p=MP, nstatevars=84),
-            sv=lambda n: np.zeros((84, n, 1)), hyper=False, iso=False)
+            sv=lambda n: np.zeros((84, n, 1)), hyper=False, iso=False, deriv=False)
     add("tt.finite_strain_viscoelastic", fem.Hyperelastic(th.finite_strain_viscoelastic, mu=1.25, eta=2.0, dtime=0.5, nstatevars=6),
         sv=lambda n: np.tile(np.array([1.0, 0.0, 0.0, 1.0, 0.0, 1.0])[:, None, None], (1, n, 1)), hyper=False, iso=False)     # C_in = 1 (upper triangle)
     add("jax.total_lagrange-svk", fj.Material(fj.total_lagrange(_svk_S_jax), mu=1.25, lmbda=2.0))
@@ -201,7 +203,7 @@ def c03(out, a):
         for dname, D in directions(rng, quick):
             Db = D[:, :, None, None]
             rid = "deriv-%s-%s" % (name, dname)
-            if out.want(rid):
+            if m["deriv"] and out.want(rid):
                 Ds = [grad(m, F + s * H * Db, sv) - grad(m, F - s * H * Db, sv) for s in (1, 2, 3)]
                 AD = np.einsum("ijkl...,kl->ij...", hess(m, F, sv), D)
                 out.write({"id": rid, "kind": "deriv", "nt": True, "clause": "ElastIsDP" if m["sv"] is None else "AlgorithmicTangent",
